@@ -49,7 +49,7 @@ Section PlayOut.
 
   Theorem play_exec_numbered : forall c env s, pnum s (play_exec R c env s).
   Proof.
-    induction c as [e|ty| |cf body IHb args kwargs k IHk|cf body IHb args kwargs k IHk|c1 IH1 h IHh
+    induction c as [e|ty| |cf body IHb args kwargs k IHk|cf body IHb args kwargs k IHk|c1 IH1 h IHh|c1 IHs1 k IHsk
                     |k IHk|k IHk|b k IHk|key e k IHk|key k IHk]; intros env s; cbn [play_exec]; try (split; reflexivity); auto.
     - apply pnum_trans; [|intros; apply IHk].
       unfold play_in_call, pnum. destruct (input_keys _ _ _); [|split; reflexivity].
@@ -66,6 +66,9 @@ Section PlayOut.
       destruct IH1 as [H1 C1]. destruct o as [v|ex|]; auto.
       specialize (IHh env s1). destruct (play_exec R h env s1) as [[o2 s2] l2]. destruct IHh as [H2 C2].
       rewrite pbouts_app', sent_app, number_app, advance_app, H1, <- C1, H2, C2. auto.
+    - specialize (IHs1 env s). unfold pnum in IHs1. destruct (play_exec R c1 env s) as [[o1 s1] l1]. destruct IHs1 as [H1 C1].
+      specialize (IHsk env s1). unfold prepend, pnum in *. destruct (play_exec R k env s1) as [[o2 s2] l2]. destruct IHsk as [H2 C2].
+      rewrite pbouts_app', sent_app, number_app, advance_app, H1, <- C1, H2, C2. auto.
     - specialize (IHk env (mk_pst (pcounter s) b)). unfold pnum in *. cbn [pcounter] in IHk. exact IHk.
     - destruct (rlookup key R) as [d|]; [|split; reflexivity]. destruct (datum_value d); [apply IHk|split; reflexivity].
   Qed.
@@ -76,7 +79,7 @@ Fixpoint ukeys_ok (c : code) : Prop :=
   match c with
   | Ret _ | Raise _ | Interrupt => True
   | Inp _ body _ _ k | Out _ body _ _ k => ukeys_ok body /\ ukeys_ok k
-  | Try c1 h => ukeys_ok c1 /\ ukeys_ok h
+  | Try c1 h | Spawn c1 h => ukeys_ok c1 /\ ukeys_ok h
   | Discard k | Force k | Enable _ k | PlayData _ k => ukeys_ok k
   | RecordData key _ k => is_output_key key = false /\ ukeys_ok k
   end.
@@ -160,7 +163,7 @@ Section RecOut.
       numbered per alias from the current counter, and the counter advances by exactly those calls *)
   Theorem rec_exec_numbered : forall c env s, ukeys_ok c -> rnum s (rec_exec P c env s).
   Proof.
-    induction c as [e|ty| |cf body IHb args kwargs k IHk|cf body IHb args kwargs k IHk|c1 IH1 h IHh
+    induction c as [e|ty| |cf body IHb args kwargs k IHk|cf body IHb args kwargs k IHk|c1 IH1 h IHh|c1 IHs1 k IHsk
                     |k IHk|k IHk|b k IHk|key e k IHk|key k IHk]; intros env s Uk; cbn [rec_exec ukeys_ok] in *.
     - intros _. split; reflexivity.
     - intros _. split; reflexivity.
@@ -168,6 +171,12 @@ Section RecOut.
     - destruct Uk as [Ub Ukk]. apply rnum_bind_val; [apply rec_in_call_rnum; intros; apply IHb; auto|intros; apply IHk; auto].
     - destruct Uk as [Ub Ukk]. apply rnum_bind_val; [apply rec_out_call_rnum; intros; apply IHb; auto|intros; apply IHk; auto].
     - destruct Uk as [U1 Uh]. apply rnum_bind_exn; [apply IH1; auto|intros; apply IHh; auto].
+    - destruct Uk as [U1 Ukk]. specialize (IHs1 env (set_icpt false s) U1). unfold rnum in IHs1.
+      destruct (rec_exec P c1 env (set_icpt false s)) as [[o1 s1] l1]. cbn [counter set_icpt] in IHs1.
+      specialize (IHsk env (set_icpt (icpt s) s1) Ukk). unfold prepend, rnum in *. cbn [counter set_icpt] in IHsk.
+      destruct (rec_exec P k env _) as [[o2 s2] l2]. intros B. lognorm.
+      destruct (IHs1 ltac:(lia)) as [X1 C1]. destruct (IHsk ltac:(lia)) as [X2 C2].
+      rewrite outw_app, sent_app, number_app, advance_app, X1, <- C1, X2, C2. auto.
     - unfold discard. destruct (active s).
       + unfold prepend, rnum. destruct (rec_exec P k env _) as [[o s2] l]. intros B. exfalso. lognorm. cbn in B. lia.
       + specialize (IHk env s Uk). unfold prepend, rnum in *. destruct (rec_exec P k env s) as [[o s2] l]. exact IHk.
